@@ -11,6 +11,7 @@ package zkmod
 
 //@ func (*Response).Verify
 //@   nopanic[C05]
+//@   inline
 
 //@ func (*Proof).Verify
 //@   nopanic[C05]
